@@ -388,6 +388,10 @@ class Array(metaclass=MetaArray):
                             # (a python integer: a numpy integer of a narrow
                             # type would overflow in sizes and strides)
                             shape.append(int(args[len(dshape)]))
+                            if shape[-1] < 0:
+                                raise ValueError(
+                                    "negative dimensions are not allowed"
+                                )
                             dshape.append(len(shape))
                         else:
                             shape.append(ndim)
